@@ -30,7 +30,7 @@ def make(kind):
     return HistoricalScheduler(EPOCH), (lambda t: EPOCH + timedelta(seconds=t)), (lambda s: (s.now - EPOCH).total_seconds())
 
 
-def run_real(kind, dues, cancel, ops, many=0, selfresched=0):
+def run_real(kind, dues, cancel, ops, many=0, selfresched=0, behave=None):
     """dues: list of due ticks scheduled up front (absolute); cancel: index cancelled before running;
     ops: list of ('advance_to', t) | ('advance_by', d) | ('sleep', d) | ('start',)"""
     s, conv, now = make(kind)
@@ -41,6 +41,16 @@ def run_real(kind, dues, cancel, ops, many=0, selfresched=0):
             log.append((i, now(s)))
             if selfresched and i == 0 and len([x for x in log if x[0] == 0]) <= selfresched:
                 s.schedule(act)
+            if behave and i == 0 and len([x for x in log if x[0] == 0]) == 1:
+                # what action 0 does while it runs (once): see BEHAVIOURS
+                if behave == "past":
+                    s.schedule_absolute(conv(dues[0] - 0.5), mk(77))
+                elif behave == "stop":
+                    s.stop()
+                elif behave == "nested_advance_by_0":
+                    s.advance_by(0 if kind != "historical" else timedelta(0))
+                elif behave == "nested_advance_to_later":
+                    s.advance_to(conv(dues[0] + 10))
         return act
     for i, d in enumerate(dues):
         handles.append(s.schedule_absolute(conv(d), mk(i)))
@@ -83,7 +93,12 @@ def run_real(kind, dues, cancel, ops, many=0, selfresched=0):
     return out, log
 
 
-def run_model(dues, cancel, ops, many=0, selfresched=0, bump=1.0):
+#: what action 0 may do while it runs: schedule something behind the clock (it runs next, before same-instant siblings), stop the scheduler (the
+#: siblings stay pending), or call advance_by(0) / advance_to(later) on the scheduler that is running it (a run is in progress: no effect at all)
+BEHAVIOURS = ("past", "stop", "nested_advance_by_0", "nested_advance_to_later")
+
+
+def run_model(dues, cancel, ops, many=0, selfresched=0, bump=1.0, behave=None):
     """reference model of virtual time (including the documented anti-spinning clock bump of start())"""
     clock = 0.0
     pending = [(d, i, i, i == cancel) for i, d in enumerate(dues)]
@@ -93,11 +108,13 @@ def run_model(dues, cancel, ops, many=0, selfresched=0, bump=1.0):
         seq += 1
     log, out = [], []
     runs0 = 0
+    st = {"stopped": False, "behaved": False}
 
     def drain(limit, spin):
         nonlocal clock, seq, runs0
         spinning = 0
-        while pending:
+        st["stopped"] = False
+        while pending and not st["stopped"]:
             pending.sort()
             d, sq, i, cancelled = pending[0]
             if limit is not None and d > limit:
@@ -111,6 +128,13 @@ def run_model(dues, cancel, ops, many=0, selfresched=0, bump=1.0):
                 spinning = 0
             if not cancelled:
                 log.append((i, clock))
+                if behave and i == 0 and not st["behaved"]:
+                    st["behaved"] = True
+                    if behave == "past":
+                        pending.append((dues[0] - 0.5, seq, 77, False))
+                        seq += 1
+                    elif behave == "stop":
+                        st["stopped"] = True
                 if selfresched and i == 0:
                     runs0 += 1
                     if runs0 <= selfresched:
@@ -166,6 +190,11 @@ def cases(prop):
                 for selfresched in (0, 2):
                     for ops in ([("start",)], [("advance_to", 2)], [("advance_to", 2), ("start",)], [("start",), ("start",)]):
                         yield kind, [2, 2], None, ops, many, selfresched
+            # an action that calls advance_by(0) / advance_to(later) on the scheduler running it changes nothing: every due action still runs
+            for behave in ("nested_advance_by_0", "nested_advance_to_later", "stop"):
+                for many in (0, 3):
+                    for ops in ([("start",)], [("advance_to", 5)], [("advance_to", 5), ("start",)]):
+                        yield kind, [2, 2, 3], None, ops, many, 0, behave
             # an idle / drained scheduler can be started again: work scheduled after a run is run by the next one
             for first in (("advance_to", 5), ("advance_by", 5), ("start",)):
                 for again in (("start",), ("advance_to", 9)):
@@ -177,6 +206,11 @@ def cases(prop):
                     for ops in ([("advance_to", 5)], [("advance_by", 5)], [("start",)], [("advance_to", 5), ("schedule", 7), ("start",)]):
                         yield kind, dues, cancel, ops, 0, 0
         return
+    for kind in ("virtual", "test", "historical"):
+        for behave in BEHAVIOURS:
+            for dues in ([2, 2], [2, 2, 3], [1, 2, 2], [2]):
+                for ops in ([("advance_to", 5)], [("advance_by", 5)], [("start",)], [("advance_to", 5), ("start",)], [("advance_to", 2), ("advance_to", 5)]):
+                    yield kind, dues, None, ops, 0, 0, behave
     for kind in ("virtual", "test", "historical"):
         for n in range(0, 4):
             for dues in itertools.product([1, 2, 3], repeat=n):
@@ -195,9 +229,10 @@ import sys
 sys.path.insert(0, {verif!r})
 from rxvc import vtsrun
 args = {args}
-real = vtsrun.norm(vtsrun.run_real({kind!r}, *args))
-model = vtsrun.norm(vtsrun.run_model(*args, 0.001 if {kind!r} == 'historical' else 1.0))
-print("schedule (dues, cancelled index, operations, extra same-instant actions, self-reschedules):", args)
+behave = {behave}
+real = vtsrun.norm(vtsrun.run_real({kind!r}, *args, behave))
+model = vtsrun.norm(vtsrun.run_model(*args, 0.001 if {kind!r} == 'historical' else 1.0, behave))
+print("schedule (dues, cancelled index, operations, extra same-instant actions, self-reschedules):", args, " action 0 while it runs:", behave)
 print("real    : ops", real[0], " invocations (index, clock):", real[1])
 print("expected: ops", model[0], " invocations (index, clock):", model[1])
 sys.exit(1 if real != model else 0)
@@ -208,18 +243,20 @@ def main(argv):
     prop = argv[2] if len(argv) > 2 else "C28"
     opts = json.loads(argv[3]) if len(argv) > 3 else {}
     n = 0
-    for kind, dues, cancel, ops, many, selfresched in cases(prop):
+    for case in cases(prop):
+        kind, dues, cancel, ops, many, selfresched = case[:6]
+        behave = case[6] if len(case) > 6 else None
         n += 1
-        real = norm(run_real(kind, dues, cancel, ops, many, selfresched))
-        model = norm(run_model(dues, cancel, ops, many, selfresched, 0.001 if kind == 'historical' else 1.0))
+        real = norm(run_real(kind, dues, cancel, ops, many, selfresched, behave))
+        model = norm(run_model(dues, cancel, ops, many, selfresched, 0.001 if kind == 'historical' else 1.0, behave))
         if real != model:
             res = {"cases": n, "found": [{"kind": kind, "dues": dues, "cancel": cancel, "ops": ops, "many": many,
-                                          "selfresched": selfresched, "real": repr(real)[:400], "model": repr(model)[:400]}]}
+                                          "selfresched": selfresched, "action_0_does": behave, "real": repr(real)[:400], "model": repr(model)[:400]}]}
             if "replay_path" in opts:
                 os.makedirs(os.path.dirname(opts["replay_path"]), exist_ok=True)
                 with open(opts["replay_path"], "w") as f:
                     f.write(REPLAY.format(prop=prop, oid=opts.get("oid", "?"), verif=VERIF, kind=kind,
-                                          args=repr((dues, cancel, [tuple(o) for o in ops], many, selfresched))))
+                                          args=repr((dues, cancel, [tuple(o) for o in ops], many, selfresched)), behave=repr(behave)))
                 res["replay"] = opts["replay_path"]
             print(json.dumps(res, default=repr))
             return
